@@ -2,9 +2,12 @@
    parameter set and one continuation style; the harness runs the FULL pagination
    loop against the real S3 gateway router (real filer gRPC service over leveldb2)
    and reports every page and the bucket tree it reads back after the last request
-   (the bucket is NOT restored between pages: a delimiter listing deletes folders). *)
+   (the bucket is NOT restored between pages: a delimiter listing deletes folders).
+   The client is the request-level one of model/S3ListV2.v: V1 (marker) and V2
+   (list-type=2 with continuation-token, start-after, both together, fetch-owner,
+   encoding-type, stray parameters of the other API version). *)
 From Coq Require Import List NArith ZArith Bool String.
-From SW Require Export base.Verdict model.S3List model.S3ListMut.
+From SW Require Export base.Verdict model.S3List model.S3ListMut model.S3ListV2.
 Import ListNotations.
 Local Open Scope string_scope.
 Local Open Scope list_scope.
@@ -42,7 +45,12 @@ Record case := {
   c_maxkeys : Z;
   c_delim : bool;            (* delimiter = "/" *)
   c_style : style;
-  c_start : string;          (* marker / start-after / token of the FIRST request *)
+  c_start : string;          (* marker (V1) / start-after (V2) of the FIRST request *)
+  c_resend : bool;           (* V2Token: the original start-after is resent with every token;
+                                V2StartAfter: the page's token is sent beside the moved start-after *)
+  c_stray : string;          (* sent in the parameters of the other API version ("" = not sent) *)
+  c_fo : bool;               (* fetch-owner=true *)
+  c_enc : bool;              (* encoding-type=url *)
   c_cap : nat;               (* the client gives up after this many pages *)
   c_pages : list page;       (* what the implementation answered *)
   c_final : list tree        (* the bucket after the last request (a LIST deletes folders) *)
@@ -66,19 +74,29 @@ Fixpoint pages_eqb (l1 l2 : list page) : bool :=
   | _, _ => false
   end.
 
-(* the model of the whole pagination loop: every request runs on the tree the previous
-   one left behind (S3ListMut.run_m) *)
-Definition model_run (c : case) : list (string * page) * list tree :=
-  run_m (c_cap c) (c_ae c) (c_tree c) (c_prefix c) (c_maxkeys c) (c_delim c) (c_style c) (c_start c).
+(* the model of the whole pagination loop: the client builds every REQUEST (S3ListV2.first_request /
+   next_request), the handler derives its marker from it (handler_marker), every request
+   runs on the tree the previous one left behind (S3ListV2.run_client) *)
+Definition case_client (c : case) : client :=
+  mk_client (c_style c) (c_resend c) (c_start c) (c_stray c) (c_fo c) (c_enc c).
+Definition model_run (c : case) : list (request * page) * list tree :=
+  run_client (c_cap c) (c_ae c) (c_tree c) (c_prefix c) (c_maxkeys c) (c_delim c) (case_client c).
 
 Definition model_pages (c : case) : list page := map snd (fst (model_run c)).
-Definition model_markers (c : case) : list string := map fst (fst (model_run c)).
+Definition model_markers (c : case) : list string := map (fun x => handler_marker (fst x)) (fst (model_run c)).
 Definition model_final (c : case) : list tree := snd (model_run c).
 
 (* which known finding the input falls under (the markers the client will send and the
    predicted final tree are functions of the input: they are computed by the model) *)
+(* a V2StartAfter client that also sends the page's token is led by the token (handler_marker):
+   its follow-up markers are not full keys *)
+Definition eff_style (c : case) : style :=
+  match c_style c with
+  | V2StartAfter => if c_resend c then V2Token else V2StartAfter
+  | st => st
+  end.
 Definition trigger (c : case) : option N :=
-  trigger_of (c_ae c) (c_tree c) (c_prefix c) (c_delim c) (c_style c) (c_start c)
+  trigger_of (c_ae c) (c_tree c) (c_prefix c) (c_delim c) (eff_style c) (c_start c)
              (model_markers c) (model_final c).
 
 Definition check (c : case) : outcome :=
